@@ -8,6 +8,7 @@ from __future__ import annotations
 import hashlib
 
 from .. import env
+from ..gen import auth as _auth
 from ..ref import isa, sigmsg
 
 ID = 'C15'
@@ -199,6 +200,16 @@ def scenario(ctx, rng, j):
             f2 = dict(fields, sigfield1=fields['sigfield1'] + b'x')
             judge(f'{L}:claim-field-changed', lock,
                   mk(R, pre, fields, f_hex), False, flds=f2)
+            # a witness is a script: without preimage and signature it opens
+            # nothing, in front of the builder's claim it changes nothing
+            # (not in the mode that runs witness + lock as one script)
+            if j % 4 == 0 and Cfg.mode != 'per-run':
+                alone, prefixes = _auth.script_witnesses(rng)
+                for nm, w in alone:
+                    judge(f'{L}:script-witness:{nm}', lock, w, False)
+                for nm, w in prefixes:
+                    judge(f'{L}:script-prefix:{nm}', lock,
+                          w + bytes(mk(R, pre, fields, f_hex)), True)
             free = [b for b in range(8) if not (allowed >> b) & 1]
             if free:
                 g = f | (1 << free[j % len(free)])
@@ -240,6 +251,13 @@ def scenario(ctx, rng, j):
     lock = locks['ptlc']
     judge('ptlc:claim', lock, t_.make_ptlc_witness(R, fields, sigflags=f_hex),
           True, nontrivial=(t - deadline) in (-1, 0, 1))
+    if j % 4 == 0 and Cfg.mode != 'per-run':
+        alone, prefixes = _auth.script_witnesses(rng)
+        for nm, w in alone:
+            judge(f'ptlc:script-witness:{nm}', lock, w, False)
+        for nm, w in prefixes:
+            judge(f'ptlc:script-prefix:{nm}', lock, w + bytes(
+                t_.make_ptlc_witness(R, fields, sigflags=f_hex)), True)
     judge('ptlc:claim-by-refund-key', lock,
           t_.make_ptlc_witness(F, fields, sigflags=f_hex), False)
     judge('ptlc:claim-by-outsider', lock,
